@@ -22,7 +22,7 @@ static void run(const std::vector<uint32_t>& orders, std::mt19937& rng) {
 	for (int trial = 0; trial < 24; trial++) {
 		for (size_t d = 0; d < nd; d++) {
 			const std::vector<double>& k = s.knots[d]; std::uniform_real_distribution<> u(k.front(), k.back());
-			int mode = (trial + d) % 6;
+			int mode = (d == (size_t)(trial % nd)) ? (trial / (int)nd) % 4 : 5;   // at most one coordinate per point on a knot / at an end
 			x[d] = mode == 0 ? k[orders[d] + 1] : mode == 1 ? k.back() : mode == 2 ? std::nextafter(k.front(), 1e9) : u(rng);
 		}
 		bool ok = t.searchcenters(x.data(), c.data()); bool ok2 = ef.searchcenters(x.data(), c2.data());
@@ -50,6 +50,7 @@ int main() {
 		std::vector<uint32_t> mixed(nd); for (uint32_t d = 0; d < nd; d++) mixed[d] = (d*2+1) % (nd > 6 ? 3 : 4); run(mixed, rng);
 	}
 	run({2,2,2,3,2,2}, rng); run({2,2,2,5,2,2}, rng);
+	run({2,2,2,3,2,2,1}, rng); run({2,2,2,5,2,2,2}, rng); run({2,2,2,3,2,2,2,2}, rng); run({2,2,2,3,2}, rng);
 	std::printf(bad ? "REPLAY: VIOLATION CONFIRMED (%d differences)\n" : "REPLAY: no violation observed\n", bad);
 	return bad ? 3 : 0;
 }
